@@ -11,6 +11,12 @@ The code does NOT maintain the full invariant `Inv`: the negation is proved on c
 (primary key unique, declared lengths, auto-increment high-water mark, key bookkeeping) — theorems
 `exec_preserves_inv_partial`, `reachable_inv_partial`.
 
+Concurrent sessions (added for the seeded change c12-a; model ImmuModel/Sql/Sessions.lean, namespace `Mv`:
+per-index snapshots at first use, the read-set of the constraint checks, `checkPreconditions`' loop body
+`probeOK`, COMMIT = validate + apply the write-set): `unique_writes_are_probed`,
+`stale_unique_lookup_conflicts`, `unique_race_second_committer_fails_partial`, witnesses
+`concurrent_insert_insert_conflict`, `concurrent_update_insert_conflict`.
+
 Concurrency is inherited from the store's MVCC (C05): `OngoingTx.GetWithFilters` records the primary
 key existence read (found: `expectedGet{expectedTx}`, not found: `expectedGet{}`) and
 `GetWithPrefixAndFilters` records the unique-prefix read (`expectedGetsWithPrefix`) in the read-set;
@@ -19,6 +25,7 @@ both are issued by `execAt`/`doUpsert` through the SQL transaction's `OngoingTx`
 depends on nothing but the entries under the read prefix.
 -/
 import ImmuModel.Sql.Proofs.DmlMain
+import ImmuModel.Sql.Proofs.SessionsMain
 
 namespace ImmuModel.Props.C12
 open ImmuModel ImmuModel.Sql
@@ -129,6 +136,90 @@ theorem unique_violated_after_delete :
     (run wSchemaU {} wProgU).1.committed.rows = [[.int 2, .int 5], [.int 3, .int 5]] ∧
     (run wSchemaU {} wProgU).2 = [.ok 0, .ok 1, .ok 1, .ok 0, .ok 1, .ok 1, .ok 0, .ok 1, .ok 1, .ok 0, .ok 1, .ok 1] := by
   constructor <;> rfl
+
+-- ---------------------------------------------------------------- concurrent sessions
+
+/-- **Every unique tuple a transaction writes is protected by a recorded read.**  In every schedule of
+BEGIN / statement / COMMIT / ROLLBACK events of any number of sessions, each transient entry `(index,
+values)` an open transaction has written into a UNIQUE index is covered by an
+`expectedGetWithPrefix{prefix = values, expectedTx = 0}` ("nothing live first under this prefix") in its
+read-set. -/
+theorem unique_writes_are_probed (sc : Schema) (evs : List Mv.Ev) (i : Nat) (p : Nat × Bytes)
+    (hp : p ∈ ((Mv.run sc {} evs).1.get i).wuniq) :
+    Mv.Probe.pget p.1 p.2 none 0 ∈ ((Mv.run sc {} evs).1.get i).probes :=
+  SessionsAux.run_probed sc evs {} SessionsAux.allProbed_init i p hp
+
+/-- **A uniqueness lookup that found nothing is invalidated by any entry that is live first under the
+prefix at COMMIT**: the transaction fails with `ErrTxReadConflict`.  (This is the branch of
+`checkPreconditions` the seeded change c12-a removes.) -/
+theorem stale_unique_lookup_conflicts (sc : Schema) (st : Mv.Store) (se : Mv.Sess) (i : Nat) (v : Bytes)
+    (e : Mv.UEntry) (hw : se.wrows ≠ []) (hp : Mv.Probe.pget i v none 0 ∈ se.probes)
+    (hl : st.pgetLive i v = some e) : Mv.commit sc st se = .error .readConflict :=
+  SessionsAux.commit_stale_probe sc st se i v e hw hp hl
+
+/-- **Of two overlapping transactions that write the same unique tuple the second committer fails**: in
+every schedule, a session that has written `(index, values)` and whose COMMIT finds a live first entry
+under that prefix in the committed store gets a read conflict, and the committed store is unchanged. -/
+theorem unique_race_second_committer_fails_partial (sc : Schema) (evs : List Mv.Ev) (i idx : Nat)
+    (v : Bytes) (e : Mv.UEntry)
+    (ha : ((Mv.run sc {} evs).1.get i).active = true)
+    (hw : ((Mv.run sc {} evs).1.get i).wrows ≠ [])
+    (hu : (idx, v) ∈ ((Mv.run sc {} evs).1.get i).wuniq)
+    (hl : (Mv.run sc {} evs).1.st.pgetLive idx v = some e) :
+    (Mv.step sc (Mv.run sc {} evs).1 (.commit i)).2 = .err .readConflict ∧
+    (Mv.step sc (Mv.run sc {} evs).1 (.commit i)).1.st = (Mv.run sc {} evs).1.st := by
+  have hc := stale_unique_lookup_conflicts sc _ _ idx v e hw
+    (unique_writes_are_probed sc evs i (idx, v) hu) hl
+  simp only [Mv.step, ha, hc]
+  exact ⟨rfl, rfl⟩
+/- Full statement (not proved; FALSE of the code in general because of finding R2, see
+   `unique_violated_after_delete`): `∀ evs, uniqueOK`-style duplicate freedom of the live rows of
+   `(Mv.run sc {} evs).1.st` for every unique index.  What is missing for schedules that never leave a
+   deleted entry under a written prefix: (1) the link between the write-set (`wrows`) and `wuniq` at COMMIT
+   (the row an UPDATE/UPSERT replaces is the one its validated reader saw), (2) the consistency invariant
+   "every live row has its live index entry" across `applyWrites`.  With a deleted first entry under the
+   prefix `pgetLive` is `none` although live entries may follow (R2): then no conflict is raised. -/
+
+def wProgII : List Mv.Ev :=
+  [.begin 0, .begin 1,
+   .stmt 0 (.ins .insert [0, 1] [[.int 1, .int 5]]),
+   .stmt 1 (.ins .insert [0, 1] [[.int 2, .int 5]]),
+   .commit 0, .commit 1]
+
+/-- witness (and non-vacuity of the hypotheses above): two sessions insert the same unique value under
+different primary keys, both uniqueness lookups run before the first COMMIT; the second COMMIT fails. -/
+theorem concurrent_insert_insert_conflict :
+    (Mv.run wSchemaU {} wProgII).1.st.rows = [[.int 1, .int 5]] ∧
+    (∃ st' : Mv.World, (Mv.run wSchemaU {} wProgII) =
+      (st', [.ok 0, .ok 0, .ok 1, .ok 1, .ok 1, .err .readConflict])) := by
+  constructor
+  · rfl
+  · exact ⟨_, rfl⟩
+
+def wProgUI : List Mv.Ev :=
+  [.begin 0, .stmt 0 (.ins .insert [0, 1] [[.int 1, .int 4]]), .commit 0,
+   .begin 0, .begin 1,
+   .stmt 0 (.upd [{ col := 1, incr := false, v := .int 5 }] (some (.cmp 0 .eq false (.int 1)))),
+   .stmt 1 (.ins .insert [0, 1] [[.int 2, .int 5]]),
+   .commit 1, .commit 0]
+
+/-- witness: UPDATE of an indexed column to the value a concurrent INSERT commits first -/
+theorem concurrent_update_insert_conflict :
+    (Mv.run wSchemaU {} wProgUI).1.st.rows = [[.int 1, .int 4], [.int 2, .int 5]] ∧
+    (∃ st' : Mv.World, (Mv.run wSchemaU {} wProgUI) =
+      (st', [.ok 0, .ok 1, .ok 1, .ok 0, .ok 0, .ok 1, .ok 1, .ok 1, .err .readConflict])) := by
+  constructor
+  · rfl
+  · exact ⟨_, rfl⟩
+
+/-- non-vacuity of `unique_race_second_committer_fails_partial`: its hypotheses hold for session 1 after
+the first five events of `wProgII` -/
+example : ∃ (e : Mv.UEntry) (v : Bytes),
+    ((Mv.run wSchemaU {} (wProgII.take 5)).1.get 1).active = true ∧
+    ((Mv.run wSchemaU {} (wProgII.take 5)).1.get 1).wrows ≠ [] ∧
+    (0, v) ∈ ((Mv.run wSchemaU {} (wProgII.take 5)).1.get 1).wuniq ∧
+    (Mv.run wSchemaU {} (wProgII.take 5)).1.st.pgetLive 0 v = some e :=
+  ⟨_, [128, 128, 0, 0, 0, 0, 0, 0, 5], rfl, by decide, by decide, rfl⟩
 
 -- ---------------------------------------------------------------- non-vacuity of the hypotheses
 
